@@ -2,6 +2,7 @@
 
 use crate::handle::{build_full, Cb, CbCfg, FbGate, TransitionLog, FALLBACK_SERIAL};
 use std::sync::Arc;
+use trv_core::nest::Nest;
 use tower_resilience_circuitbreaker::CircuitState;
 use trv_core::inner::{Out, Req};
 use trv_core::svcx::{self, Action, Counts, Scenario, Viol};
@@ -15,6 +16,9 @@ pub struct C03 {
     pub max_force: usize,
     /// explorer time grid (ms): 10, or 1010 for the seconds-range configuration
     pub grid: u64,
+    /// emulated lock contention: a caller may be polled from inside another caller's critical
+    /// section - including from inside the announcement of a transition (see trv_core::nest)
+    pub nested: usize,
 }
 
 /// One poll of an async view of the breaker: None if it would have to wait - the circuit
@@ -30,6 +34,8 @@ fn poll_view<T>(f: futures::future::BoxFuture<'_, T>) -> Option<T> {
 }
 
 pub struct X {
+    pre_queue: bool,
+    nest: Option<Arc<Nest>>,
     gate: Arc<FbGate>,
     svc: Box<dyn Cb>,
     other: Box<dyn Cb>,
@@ -69,15 +75,20 @@ impl Scenario for C03 {
         self.grid
     }
     fn init(&self, w: &mut World) -> X {
-        let (svc, tl, gate) = build_full(&self.cfg, w.inner.clone(), w.origin, None);
+        let nest = if self.nested > 0 { Some(Nest::new()) } else { None };
+        let (svc, tl, gate) = build_full(&self.cfg, w.inner.clone(), w.origin, nest.clone());
         let other = svc.clone_box();
-        X { gate, svc, other, tl, pre_open: false, pre_calls: 0, pre_had_inner: false, saw_open_reject: false, saw_inflight_when_opened: false, saw_pending_fallback: false }
+        X { pre_queue: false, nest, gate, svc, other, tl, pre_open: false, pre_calls: 0, pre_had_inner: false, saw_open_reject: false, saw_inflight_when_opened: false, saw_pending_fallback: false }
     }
     fn arrive(&self, w: &mut World, x: &mut X, c: usize, _v: u8) {
         // every caller works on its own clone
         let mut h = x.svc.clone_box();
         let req = Req::new(c as u32, 0);
         let fut = h.start_call(req.clone());
+        let fut = match &x.nest {
+            Some(n) => n.wrap(c, fut, w.callers[c].flag.clone()),
+            None => fut,
+        };
         w.set_arrived(c, req, fut);
     }
     fn outs(&self) -> Vec<Out> {
@@ -89,11 +100,23 @@ impl Scenario for C03 {
         if self.cfg.fallback_gated && !*x.gate.open.lock().unwrap() {
             v.push(1);
         }
+        // 10 + j: arm caller j for a nested poll
+        if let Some(n) = &x.nest {
+            if n.armed().is_none() {
+                v.extend((0.._w.callers.len().min(self.callers)).filter(|&j| _w.pollable(j)).map(|j| 10 + j as u8));
+            }
+        }
         v
     }
     fn apply_ctl(&self, w: &mut World, x: &mut X, ctl: u8) {
         if ctl == 1 {
             x.gate.release();
+            return;
+        }
+        if ctl >= 10 {
+            if let Some(n) = &x.nest {
+                n.arm(ctl as usize - 10);
+            }
             return;
         }
         // (a breaker whose lock is held across an await would make this wait for ever)
@@ -107,11 +130,17 @@ impl Scenario for C03 {
             Action::Tick => c.ticks < self.max_ticks,
             Action::Drop(_) => c.drops < self.max_drops,
             Action::Ctl(0) => h.iter().filter(|a| matches!(a, Action::Ctl(0))).count() < self.max_force,
+            Action::Ctl(c) if *c >= 10 => h.iter().filter(|a| matches!(a, Action::Ctl(c) if *c >= 10)).count() < self.nested,
             Action::Ctl(_) => true,
             _ => true,
         }
     }
     fn fingerprint(&self, w: &World, x: &X) -> String {
+        if let Some(n) = &x.nest {
+            let now = w.now_ms();
+            let shield = t_open(&x.tl).filter(|t| now < t.saturating_add(self.cfg.wait_ms)).map(|t| (now - t) as i64).unwrap_or(-1);
+            return format!("nested/{:?}/{}/{:?}/{:?}", x.svc.state_sync(), shield, n.armed(), n.fired());
+        }
         let Some(m) = poll_view(x.svc.metrics()) else {
             return format!("views-blocked/{:?}/{}", x.svc.state_sync(), *x.gate.open.lock().unwrap());
         };
@@ -137,6 +166,17 @@ impl Scenario for C03 {
             Action::Poll(c) => has_inner(w, *c as usize),
             _ => false,
         };
+        // A caller queued on the circuit lock by a nested poll owns the lock from the moment it
+        // is handed over until it is polled again (its thread would run on at once; here the
+        // explorer may poll somebody else first, who then has to queue behind it): "answered
+        // at once" is only judged for polls that find nobody else waiting to be polled.
+        x.pre_queue = false;
+        if x.nest.is_some() {
+            if let Action::Poll(c) = a {
+                x.pre_queue = (0..w.callers.len()).any(|o| o != *c as usize && w.callers[o].polls > 0 && w.callers[o].is_live() && w.needs_poll(o))
+                    || x.nest.as_ref().map_or(false, |n| n.fired().iter().any(|(j, _)| w.callers[*j].is_live() && w.needs_poll(*j) && *j != *c as usize));
+            }
+        }
     }
     fn after(&self, w: &mut World, x: &mut X, a: &Action, out: &mut Vec<Viol>) {
         let site = self.cfg.site();
@@ -146,7 +186,20 @@ impl Scenario for C03 {
             out.push(Viol::new("clones_disagree", site, format!("two clones of one breaker show {s1:?} and {s2:?}")));
         }
         // the circuit lock is never held across an await: the async views answer in one poll
-        if poll_view(x.svc.metrics()).is_none() {
+        // an inner call started after a transition to Open had been announced (and before the
+        // wait has elapsed) - judged by call order, so it also covers a caller polled from
+        // inside the announcement itself
+        {
+            let marks = x.gate.open_marks.lock().unwrap().clone();
+            let g = w.inner.lock().unwrap();
+            for (t, n) in marks {
+                if let Some(k) = g.calls.iter().skip(n).find(|k| k.start_ms < t.saturating_add(self.cfg.wait_ms)) {
+                    out.push(Viol::new("inner_call_after_open_announced", site, format!("inner call #{} (req {}) started at {}ms although the breaker had announced its opening at {t}ms after {n} inner calls (wait {}ms)", k.k, k.req.id, k.start_ms, self.cfg.wait_ms)));
+                    break;
+                }
+            }
+        }
+        if x.nest.is_none() && poll_view(x.svc.metrics()).is_none() {
             out.push(Viol::new("views_blocked", site, format!("after {} metrics() cannot complete: the circuit lock is being held across an await (callers admitted earlier cannot record their outcome, open calls are not answered)", a.enc())));
             return;
         }
@@ -160,7 +213,7 @@ impl Scenario for C03 {
         }
         if let Action::Poll(c) = a {
             let c = *c as usize;
-            if x.pre_open && !x.pre_had_inner {
+            if x.pre_open && !x.pre_had_inner && !x.pre_queue {
                 match &w.callers[c].phase {
                     Phase::Done(Outcome::Layer(t)) if t == "Open" && !self.cfg.fallback => x.saw_open_reject = true,
                     Phase::Done(Outcome::Ok(r)) if self.cfg.fallback && r.serial == FALLBACK_SERIAL => x.saw_open_reject = true,
